@@ -230,5 +230,5 @@ for _k in SRCS:
             CELLS.append(Cell(f'P1.reconcile[{_k},rounds={_r},first={OPS[_o1]}]', _mk(_k, _r, _o1), 'P', FNR,
                               f'carrier {_k} ({len(SRCS[_k].splitlines())} lines); script: first mutation {OPS[_o1]} at node ordinal k1, second mutation (any of {len(OPS)} kinds) at k2; '
                               f'ordinals symbolic in -1..40 (finite); {_r} mark/reconcile round(s)',
-                              tier='quick' if (_k, _r) == ('small', 1) and OPS[_o1] in ('none', 'expr_new', 'stmt_delete', 'stmt_swap_next', 'expr_foreign', 'rename') else 'thorough',
+                              tier='quick' if ((_k, _r) == ('small', 1) and OPS[_o1] in ('none', 'expr_new', 'stmt_delete', 'stmt_swap_next', 'expr_foreign', 'rename')) or ((_k, _r) == ('ifelse2', 1) and OPS[_o1].startswith('cross_fields')) else 'thorough',
                               budget=900, per_path=90, out='mutation histories > 2 ops per round; programs outside the carriers', reset=pc.reset_globals))
